@@ -286,7 +286,19 @@ type Check[C any] struct {
 	// Confirm, when set, re-executes a failing case once more; the failure is only believed
 	// when it fails again (used by timing-based liveness oracles).
 	Confirm bool
+	// RecordCurrent writes every case to <out>/current-case.json before it runs, so that a crash of
+	// the whole process (unrecovered panic or fatal error inside the library) leaves the culprit on disk;
+	// the driver turns it into a violation.
+	RecordCurrent bool
 }
+
+func (r *Runner) recordCurrent(check string, raw []byte) {
+	rf := ReplayFile{Property: r.ID, Check: check, Error: "the process died while this case was running (unrecovered panic or fatal runtime error)", Case: raw}
+	b, _ := json.Marshal(rf)
+	_ = os.WriteFile(filepath.Join(r.OutDir, "current-case.json"), b, 0o644)
+}
+
+func (r *Runner) clearCurrent() { _ = os.Remove(filepath.Join(r.OutDir, "current-case.json")) }
 
 // Register makes a check replayable without running its generated search.
 func Register[C any](r *Runner, name string, run func(C) Result) {
@@ -330,6 +342,9 @@ func RunCheck[C any](r *Runner, ck Check[C]) {
 		if err != nil {
 			panic("vlib: case not JSON-encodable: " + err.Error())
 		}
+		if ck.RecordCurrent {
+			r.recordCurrent(ck.Name, raw)
+		}
 		res := ck.Run(c)
 		if res.Err != nil && ck.Confirm {
 			res2 := ck.Run(c)
@@ -363,6 +378,9 @@ func RunCheck[C any](r *Runner, ck Check[C]) {
 		rapid.Check(tb, prop)
 	}()
 	<-done
+	if ck.RecordCurrent {
+		r.clearCurrent()
+	}
 	if tb.Failed() {
 		if lastFailRaw == nil {
 			// rapid itself complained (e.g. generator problems) - harness error, not a violation
@@ -406,7 +424,13 @@ func RunCases[C any](r *Runner, name string, cases []C, run func(C) Result, conf
 			return
 		}
 		raw, _ := json.Marshal(c)
+		if confirm {
+			r.recordCurrent(name, raw)
+		}
 		res := run(c)
+		if confirm {
+			r.clearCurrent()
+		}
 		if res.Err != nil && confirm {
 			if res2 := run(c); res2.Err == nil {
 				r.Note("%s: a failure did not reproduce on immediate re-execution and was discarded: %v", name, res.Err)
